@@ -59,7 +59,7 @@ def emit(modname, cfgid, shape, with_peq=False, sp=None, pre='', t_override=None
     covers = ['same key']
     if live or len(t.variants) > 1:
         covers.append('different key')
-    h = Harness('h_hash', unwind=14, covers=covers)
+    h = Harness('h_hash', unwind=8, covers=covers)
     peq = '    if a == b { assert!(ra.same(&rb), "a == b but different data was hashed"); }\n' if with_peq else ''
     body += h.attrs() + f'''pub fn h_hash() {{
     let a = anyv();
@@ -112,7 +112,7 @@ def gen(tier, seed):
 RULE = ('one config = shape x per-field {plain u8, plain u16, ignored, method hash_m}; optionally PartialEq educed with the same ignore choices. '
         'Both values arbitrary incl. variant; the recording Hasher logs every write_* call as (kind, value), so equality of records is equality of the data fed for any hasher. '
         'Non-trivial = harness passed and both the same-key and the different-key witness were SATISFIED.')
-BOUNDS = dict(max_fields=3, max_variants=3, recorder_capacity=12, unwind=14, field_types=['u8', 'u16'],
+BOUNDS = dict(max_fields=3, max_variants=3, recorder_capacity=6, unwind=8, field_types=['u8', 'u16'],
               outside=['>3 fields/variants', 'field types whose own hashing is not injective', 'unions (C20)'])
 ASSUME = ['Kani 0.68 / CBMC 6.11 / CaDiCaL; rustc nightly-2026-08-21 x86_64 dev profile',
           'the variant prefix is checked as "some function of the variant that separates variants", not as a usize index',
